@@ -113,7 +113,7 @@ def _scope(ctx, prop):
             funcs |= roles.get(role, set())
     class_props = {
         'FileJournal': 'C06 C08', 'ResizableFile': 'C08 C11', 'MemoryJournal': 'C08', 'MetaStorer': 'C06 C08', 'Serializer': 'C06 C09',
-        'TcpConnection': 'C11 C13 C14', 'TCPTransport': 'C14 C18', 'TcpServer': 'C14', 'FastQueue': 'C02 C19',
+        'TcpConnection': 'C11 C13 C14', 'TCPTransport': 'C14 C18', 'Transport': 'C14 C18', 'TcpServer': 'C14', 'FastQueue': 'C02 C19',
         '_ReplLockManagerImpl': 'C16', 'ReplLockManager': 'C16', 'ReplDict': 'C15', 'ReplList': 'C15', 'ReplSet': 'C15', 'ReplQueue': 'C15',
         'ReplPriorityQueue': 'C15', 'ReplCounter': 'C15', 'SyncObjConsumer': 'C09 C15',
     }
@@ -147,4 +147,49 @@ def l_undefined_name(ctx):
                           'whenever it is reached' % name, instance='%s: every name read is bound somewhere' % f.qualname)
     if not bad:
         ctx.ok('%d functions in scope: every name read is bound somewhere' % n, '', '')
+    ctx.expect_min(1)
+
+
+@rule('L-none-call', 'no function the property depends on calls a value, or sends a message to a node, that is known to be None '
+                     'at that point (a guard tested with the wrong polarity)')
+def l_none_call(ctx):
+    P, R = ctx.P, ctx.R
+    funcs = _scope(ctx, ctx.prop)
+    n_calls = 0
+    bad = 0
+    for f in sorted(funcs, key=lambda x: x.qualname):
+        cands = []
+        for c in P.calls_in(f):
+            fn = c.func
+            if isinstance(fn, ast.Name) and (fn.id in f.params or P._is_local(f, fn.id)):
+                cands.append((c, fn, 'called'))
+            elif isinstance(fn, ast.Attribute) and P.self_attr(fn, f.self_name) and f.owner_cls is not None and P.lookup_method(f.owner_cls, fn.attr) is None:
+                cands.append((c, fn, 'called'))
+            # transport.send(<node>, ..): the addressee
+            if isinstance(fn, ast.Attribute) and fn.attr == 'send' and f.owner_cls is R.S and P.self_attr(fn.value, f.self_name) == R.transport and c.args \
+                    and isinstance(c.args[0], (ast.Name, ast.Attribute)):
+                cands.append((c, c.args[0], 'the addressee of a send'))
+        if not cands:
+            continue
+        try:
+            ex = U.explorer(ctx, f)
+            res = U.full_run(ctx, f)
+        except AnalysisError:
+            continue
+        for c, e, what in cands:
+            nodes = [n for n in U.nodes_containing(ex.cfg, c) if res.reached(n.id)]
+            if not nodes:
+                continue
+            n_calls += 1
+            ctx.tick()
+            t = ex.tb.term(e)
+            if t.volatile:
+                continue
+            if all(bool(res.facts_at(n.id)) and all(('none', t, True) in fs for fs in res.facts_at(n.id)) for n in nodes):
+                bad += 1
+                ctx.violation('%s:none-%s' % (f.qualname, 'called' if what == 'called' else 'addressed'), f.loc(c),
+                              '`%s` is %s on every path reaching `%s`, where it is known to be None (the guard in front of it has the wrong polarity): the statement raises, '
+                              'or the message goes nowhere' % (ast.unparse(e), what, ast.unparse(c)[:50]), instance='%s: `%s` is not None where it is %s' % (f.qualname, ast.unparse(e), what))
+    if not bad:
+        ctx.ok('%d call / send sites through values in scope: none is known to be None' % n_calls, '', '')
     ctx.expect_min(1)
